@@ -95,18 +95,18 @@ Lemma sp_get_psub_val ops k v : (forall o, In o ops -> is_psub o) -> sp_get k (s
 Proof. intros H Hg. rewrite (spec_run_psubs _ _ H) in Hg. destruct (existsb _ ops); congruence. Qed.
 
 Lemma has_member_intro t G l cl g f :
-  In (cl, g, f) l -> g <> [] -> lm (split t) (split f) = true -> fed_full_topic g f = G -> has_member t G l = true.
+  In (cl, g, f) l -> g <> [] -> topic_match t f = true -> fed_full_topic g f = G -> has_member t G l = true.
 Proof.
   intros Hin Hg Hlm HG. unfold has_member. apply existsb_exists. exists (cl, g, f). split; [exact Hin|].
   unfold lsub_match, lsub_full. cbn [fst snd]. apply is_empty_false in Hg. rewrite Hg, Hlm, HG. cbn [negb andb]. apply str_eqb_refl.
 Qed.
 
 Lemma has_member_elim t G l : has_member t G l = true ->
-  exists cl g f, In (cl, g, f) l /\ g <> [] /\ lm (split t) (split f) = true /\ fed_full_topic g f = G.
+  exists cl g f, In (cl, g, f) l /\ g <> [] /\ topic_match t f = true /\ fed_full_topic g f = G.
 Proof.
   unfold has_member. intros H. apply existsb_exists in H as ([[cl g] f] & Hin & H). unfold lsub_match, lsub_full in H. cbn [fst snd] in H.
   apply andb_true_iff in H as [H HG]. apply andb_true_iff in H as [Hg Hlm]. apply negb_true_iff in Hg.
-  rewrite Hg in Hlm. exists cl, g, f. split; [exact Hin|]. split; [now apply is_empty_false|]. split; [exact Hlm|].
+  exists cl, g, f. split; [exact Hin|]. split; [now apply is_empty_false|]. split; [exact Hlm|].
   now destruct (str_eqb_spec (fed_full_topic g f) G).
 Qed.
 
